@@ -59,6 +59,9 @@ package scanner
 //@ site recv#1 as rcv
 //@ site Retry#1 as rt
 //@ site fn#1 as deliver
+//@ site Err#1 as ce
+//@ ensures [the-worker-stops-only-when-the-ranges-are-exhausted-or-the-runs-own-context-has-ended] rcv.called && (rcv.ok ==> ce.called && ce.res != nil)
+//@ at ce assert [asks-the-context-the-run-was-started-with] ce.recv == ctx
 //@ stable-field f.client
 //@ private resp
 //@ requires f != nil && f.client != nil && ctx != nil && fn != nil
